@@ -284,7 +284,9 @@ def analyse(pid, cfg, ops, verdicts, known):
         if o.get("op") == "scenario":
             cur_kind = o.get("kind", "?")
         v = verdicts.get(i)
-        if not v or v.get("kind") != "parse":
+        if not v or v.get("kind") not in ("parse", "assert"):
+            continue
+        if v.get("kind") == "assert" and key not in v.get("oracle", {}):
             continue
         st["evaluations"] += 1
         st["kinds"][cur_kind] = st["kinds"].get(cur_kind, 0) + 1
